@@ -76,5 +76,50 @@ claim("C18", "Exact decision of: every leaf type of the IR schema has inverse co
       "two-process drivers use the same entry points, Config and to_json/from_json(EmbossIr) (R-DRIVERS).",
       _NOTE + "Not decided: equality of arbitrary IRs after a round trip; header identity.",
       "schema-driven converter exhaustiveness + driver entry-point agreement")
-for _p in ["C01","C02","C03","C04","C06","C07","C19","C20"]:
-    na(_p, "check under construction in this session (see DESIGN.md section 4 for the planned structural clauses)")
+_CNOTE = _NOTE + "C++ facts come from clang 14 (-fsyntax-only, -ast-dump=json); no binary is produced or run. "
+claim("C01", "Exact decision of: operator meaning preserved token -> IR -> Python folders -> emitted C++ name -> runtime function -> "
+      "functor operator (R-CONSTFOLD, R-OPCHAIN); $-field name tables agree (R-DOLLAR); accessor guards, argument roles and "
+      "null-view fall-through (R-ACCESSOR); dependency-ordered Ok/text emission (R-DEPORDER); emitted runtime names exist "
+      "(R-RTSYMS).",
+      _CNOTE + "Not decided: offset/size arithmetic, size = max end, parameters, [requires], prefix-monotonicity.",
+      "cross-language table agreement over Python ast + clang AST")
+claim("C02", "Exhaustive compile witnesses: every scalar view x every admitted width x container size x byte orderer (and EnumView "
+      "x underlying type) instantiates under each standard with value types at least as wide as the field and of the declared "
+      "signedness; widths outside are refused by static_assert (R-WIDTHS). Checked/unchecked read twins compute the same "
+      "expression (R-TWIN); LE/BE orderers and buffer accessors are mirror images (R-MIRROR).",
+      _CNOTE + "Not decided: bit numbering, masks, sign extension, BCD/float decoding values.",
+      "compile-pass / compile-fail witnesses (clang type checker) + twin/mirror skeleton comparison")
+claim("C03", "Exact decision of: no storage write before the CouldWriteValue/IsComplete guards in any scalar view, sibling "
+      "agreement of the write interface (R-SIBLING); TryToWrite stores what UncheckedWrite stores (R-TWIN); the inverse built "
+      "for x+c, x-c, c-x is the algebraic inverse, as a linear form (R-INVERSE); the virtual write template guards and "
+      "forwards the transformed value (R-VWRITE).",
+      _CNOTE + "Not decided: exact accept/reject boundaries, neighbour-bit preservation.",
+      "sibling skeleton comparison + linear-form evaluation of the synthesised inverse")
+claim("C04", "Exact decision of: no-abort methods reach aborting callees only behind a guard (R-NOABORT, callee set computed from "
+      "the AST), sibling guard agreement (R-SIBLING), null view for unknown/negative locations (R-ACCESSOR), memmove behind "
+      "Ok/size tests (R-COPY), no constant-operand UB in any legal instantiation (R-WIDTHS), 64-bit gate registration "
+      "(R-GATE).",
+      _CNOTE + "Not decided: absence of out-of-bounds access for all buffers and dynamic offsets; alignment claims.",
+      "call-discipline (guard dominance) analysis over method bodies + compile witnesses")
+claim("C06", "Exact decision of: attribute tests compare values of the right type and domain (R-SCHEMACMP, R-ATTRVALUES); "
+      "text emission/decoding in dependency order with the same dependency extraction as cycle detection (R-DEPORDER, "
+      "R-DEPTWIN); text methods exist on every view kind (R-IFACE).",
+      _CNOTE + "Not decided: integer text encode/decode inverse, whole-structure round trip, option combinations.",
+      "schema-typed comparison lint + ordering/interface completeness checks")
+claim("C07", "Exact decision of: template placeholder completeness (R-TEMPLATE), emitted runtime names exist (R-RTSYMS), case-label "
+      "dedup guards (R-CASEDEDUP), generated-identifier collision analysis with witnesses (R-SPELL; 6 known findings), "
+      "admitted widths instantiate / others refused (R-WIDTHS), callable sibling signatures (R-SIBLING), interface "
+      "completeness per view kind (R-IFACE), reserved words on all named kinds (R-NAMEDKINDS), integer literal rendering "
+      "(R-RENDERINT), enum-case conversions (R-ENUMCASE).",
+      _CNOTE + "Not decided: well-formedness of the header for every accepted program; equality of emitted constants.",
+      "template/placeholder agreement, identifier-language collision analysis, compile witnesses")
+claim("C19", "Exact decision of: first-name rule and duplicate-free case labels via seen-set guards (R-CASEDEDUP), enum_case "
+      "conversions (R-ENUMCASE), edge-value literal rendering (R-RENDERINT), EnumView x underlying type x width witnesses "
+      "(R-WIDTHS), numeric enum values (R-POSCHECK).",
+      _CNOTE + "Not decided: name/value maps for arbitrary enums.",
+      "guard-dominance lint + compile witnesses")
+claim("C20", "Exact decision of: Equals/UncheckedEquals clause lockstep over physical fields and parameters (R-EQLOCKSTEP), sibling "
+      "and twin agreement of Equals/CopyFrom (R-SIBLING, R-TWIN), interface completeness incl. parameters (R-IFACE), "
+      "memmove copy behind Ok/size guards (R-COPY).",
+      _CNOTE + "Not decided: byte-level post-conditions, symmetry on arbitrary buffers.",
+      "lockstep / sibling / interface completeness analysis")
